@@ -157,13 +157,19 @@ POS = {
     "json_key": lambda Q, v: Q.from_(_t()).select("a").where(_t().j.get_json_value(v) == 0),
     "json_has_key": lambda Q, v: Q.from_(_t()).select("a").where(_t().j.has_key(v)),
     "arith": lambda Q, v: Q.from_(_t()).select(_t().a + v),
+    # a negative value right of a minus must not open a comment ("--")
+    "arith_sub": lambda Q, v: Q.from_(_t()).select(_t().a - v),
+    "arith_sub_prod": lambda Q, v: Q.from_(_t()).select((_t().a - v) * _t().b),
+    "arith_sub_where": lambda Q, v: Q.update(_t()).set(_t().a, _t().a - v).where(_t().b > 0),
     "subquery_where": lambda Q, v: Q.from_(_t()).select("a").where(_t().a.isin(Q.from_(Table("u")).select("x").where(Table("u").y == v))),
     "union_operand": lambda Q, v: Q.from_(_t()).select("a").union(Q.from_(Table("u")).select("x").where(Table("u").y == v)),
     "returning": None,  # filled for postgresql below
 }
 POS.pop("returning")
 # positions that accept only some kinds
-ONLY = {"like": {"str"}, "json_key": {"str", "int"}, "json_has_key": {"str"}, "arith": {"int", "float", "decimal", "str"}}
+ONLY = {"like": {"str"}, "json_key": {"str", "int"}, "json_has_key": {"str"}, "arith": {"int", "float", "decimal", "str"},
+        "arith_sub": {"int", "float", "decimal", "enum", "bool"}, "arith_sub_prod": {"int", "float", "decimal", "enum"},
+        "arith_sub_where": {"int", "float", "decimal", "enum"}}
 JSON_POS = {"json_term": lambda Q, v: Q.from_(_t()).select(JSON(v)),
             "json_contains": lambda Q, v: Q.from_(_t()).select("a").where(_t().j.contains(v)),
             "select": POS["select"], "where_eq": POS["where_eq"], "insert_row": POS["insert_row"], "set": POS["set"],
@@ -254,7 +260,10 @@ def expected_groups(kind, v, d, pos):
         neg = (v < 0) or (kind in ("float", "decimal") and str(v).startswith("-"))
         mag = -v if neg else v
         g = [("NUM", mag)]
-        return [([("OP", "-")] if neg else []) + g]
+        alts = [([("OP", "-")] if neg else []) + g]
+        if neg and pos.startswith("arith_sub"):
+            alts.append([("OP", "("), ("OP", "-")] + g + [("OP", ")")])  # x-(-1): the sign needs grouping there
+        return alts
     if kind == "bool":
         return [[("WORD", "TRUE" if v else "FALSE")], [("NUM", 1 if v else 0)]]
     if kind == "none":
@@ -351,6 +360,23 @@ def run_case(case):
     except Exception as e:
         res.violate("C05|%s|%s|%s|raises" % (pos, d, kind), "building/rendering with this value raised %s" % type(e).__name__,
                     dialect=d, pos=pos, kind=kind, value=repr(v), error=str(e)[:200])
+        return res
+    # the same statement object rendered for another dialect first: the literal must not depend on that history
+    other = "generic" if d == "mysql" else "mysql"
+    try:
+        o2 = fn(Q, v)
+        try:
+            o2.get_sql(fp.CTX[other])
+        except Exception:
+            pass
+        sql2 = render(o2, Q)
+    except Exception as e:
+        sql2 = "!" + type(e).__name__
+    res.transitions += 2
+    if sql2 != sql:
+        res.violate("C05|%s|%s|%s|after-other-dialect" % (pos, d, kind),
+                    "the statement renders differently after the same object was rendered for another dialect (%s)" % other,
+                    dialect=d, pos=pos, kind=kind, value=repr(v), fresh=sql, after=sql2)
         return res
     b = benign_of(kind, v)
     bkey = (d, pos, repr(b))
